@@ -82,7 +82,7 @@ def cases(tier, seed):
     for i in range(60 if tier == 'quick' else 1200):
         qt = ['LOBATTO', 'RADAU-RIGHT', 'GAUSS', 'RADAU-LEFT'][i % 4]
         M = int(rng.integers(2, 6))
-        cs.append(dict(kind='verlet', qt=qt, nt='LEGENDRE' if i % 3 else 'EQUID', M=M, dtexp=float(rng.uniform(-2, 0)), tau=False,
+        cs.append(dict(kind='verlet', qt=qt, nt='LEGENDRE' if i % 3 else 'EQUID', M=M, dtexp=float(rng.uniform(-2, 0)), tau=bool((i // 4) % 2),
                        coll_update=bool(rng.random() < 0.4), t0=float(rng.uniform(0, 2)), seed=int(rng.integers(0, 2**31)), _cost=M * M))
     for i in range(90 if tier == 'quick' else 2400):
         which = ['fully', 'semi', 'fully', 'semi', ['BackwardEulerDAE', 'TrapezoidalRuleDAE', 'EDIRK4DAE', 'DIRK43_2DAE'][(i // 5) % 4]][i % 5]
@@ -432,7 +432,7 @@ def run_verlet(case, r):
     M, qt, nt = case['M'], case['qt'], case['nt']
     dt = 10 ** case['dtexp']
     kk = float(rng.uniform(0.5, 4))
-    r.key = f'verlet/{nt}/{qt}/{M}/cu{case["coll_update"]}'
+    r.key = f'verlet/{nt}/{qt}/{M}/cu{case["coll_update"]}/tau{case["tau"]}'
     S = make_step(harmonic_oscillator, dict(k=kk, mu=0.0, u0=(1.0, 0.0)), verlet, dict(num_nodes=M, quad_type=qt, node_type=nt, do_coll_update=case['coll_update']), dict(dt=dt))
     L = S.levels[0]
     P = L.prob
@@ -473,15 +473,24 @@ def run_verlet(case, r):
     if e > 1e-12:
         r.incon(f'harmonic oscillator force is not -k x ({e})')
         return
+    # FAS correction (0-to-node, in position and velocity) as a coarse level of a hierarchy carries it
+    TX, TV = np.zeros(M + 1), np.zeros(M + 1)
+    if case['tau']:
+        TX[1:], TV[1:] = 0.3 * rng.standard_normal(M), 0.3 * rng.standard_normal(M)
+        for m in range(M):
+            L.tau[m] = P.dtype_u(P.init, val=0.0)
+            L.tau[m].pos[:] = TX[m + 1]
+            L.tau[m].vel[:] = TV[m + 1]
+        r.count('verlet_with_tau')
     L.sweep.update_nodes()
     xn = np.zeros(M + 1)
     vn = np.zeros(M + 1)
     fn = np.zeros(M + 1)
     xn[0], vn[0], fn[0] = X[0], V[0], Fold[0]
     for m in range(1, M + 1):
-        xn[m] = X[0] + dt * sum(Q[m, j] for j in range(1, M + 1)) * V[0] + dt * dt * sum((QQ[m, j] - Qx[m, j]) * Fold[j] for j in range(1, M + 1)) + dt * dt * sum(Qx[m, j] * fn[j] for j in range(1, m))
+        xn[m] = X[0] + dt * sum(Q[m, j] for j in range(1, M + 1)) * V[0] + dt * dt * sum((QQ[m, j] - Qx[m, j]) * Fold[j] for j in range(1, M + 1)) + dt * dt * sum(Qx[m, j] * fn[j] for j in range(1, m)) + TX[m]
         fn[m] = -kk * xn[m]
-        vn[m] = V[0] + dt * sum((Q[m, j] - QT[m, j]) * Fold[j] for j in range(1, M + 1)) + dt * sum(QT[m, j] * fn[j] for j in range(1, m + 1))
+        vn[m] = V[0] + dt * sum((Q[m, j] - QT[m, j]) * Fold[j] for j in range(1, M + 1)) + dt * sum(QT[m, j] * fn[j] for j in range(1, m + 1)) + TV[m]
     gx = np.array([float(np.asarray(L.u[m].pos).ravel()[0]) for m in range(M + 1)])
     gv = np.array([float(np.asarray(L.u[m].vel).ravel()[0]) for m in range(M + 1)])
     sc = max(1.0, np.max(np.abs(xn)), np.max(np.abs(vn)))
@@ -493,8 +502,8 @@ def run_verlet(case, r):
         ex, ev = gx[-1], gv[-1]
     else:
         qQ = w @ Q[1:, 1:]
-        ex = X[0] + dt * np.sum(w) * V[0] + dt * dt * float(qQ @ fn[1:])
-        ev = V[0] + dt * float(w @ fn[1:])
+        ex = X[0] + dt * np.sum(w) * V[0] + dt * dt * float(qQ @ fn[1:]) + TX[M]
+        ev = V[0] + dt * float(w @ fn[1:]) + TV[M]
     e = max(abs(float(np.asarray(L.uend.pos).ravel()[0]) - ex), abs(float(np.asarray(L.uend.vel).ravel()[0]) - ev))
     r.check(e <= 1e-12 * sc * M, 'verlet-end', f'{r.key}: end point differs by {e:.3e}')
     r.nontrivial = True
@@ -843,6 +852,8 @@ def finalize(agg):
     for k in ('boris_default', 'boris_PIC'):
         if c.get(k, 0) == 0:
             out.append(f'Boris configuration {k} never reached the fixed-point oracle')
+    if c.get('verlet_with_tau', 0) == 0:
+        out.append('the Verlet sweeper was never swept with a FAS correction')
     if len(agg['seen'].get('rk_class', ())) < 10:
         out.append('fewer than 10 Runge-Kutta classes reached the stage oracle')
     return out
